@@ -146,22 +146,32 @@ class ChangeContents(Change):
     * `new_contents`: What to write in the file
     """
 
-    def __init__(self, resource, new_contents, old_contents=None):
+    def __init__(self, resource, new_contents, old_contents=None, newlines=None):
         self.resource = resource
         # IDEA: Only saving diffs; possible problems when undo/redoing
         self.new_contents = new_contents
         self.old_contents = old_contents
+        # The newline convention of the file when `old_contents` was taken;
+        # `old_contents` itself is newline-normalised text.
+        self.newlines = newlines
 
     @_handle_job_set
     def do(self):
         if self.old_contents is None:
             self.old_contents = self.resource.read()
+            self.newlines = self.resource.newlines
+        elif self.newlines is not None:
+            self.resource.newlines = self.newlines
         self._operations.write_file(self.resource, self.new_contents)
 
     @_handle_job_set
     def undo(self):
         if self.old_contents is None:
             raise exceptions.HistoryError("Undoing a change that is not performed yet!")
+        if self.newlines is not None:
+            # What the resource object remembers may come from a later read
+            # of different contents.
+            self.resource.newlines = self.newlines
         self._operations.write_file(self.resource, self.old_contents)
 
     def __str__(self):
@@ -414,7 +424,12 @@ class ChangeToData:
         return (description, changes, change.time)
 
     def convertChangeContents(self, change):
-        return (change.resource.path, change.new_contents, change.old_contents)
+        return (
+            change.resource.path,
+            change.new_contents,
+            change.old_contents,
+            change.newlines,
+        )
 
     def convertMoveResource(self, change):
         return (
@@ -447,9 +462,9 @@ class DataToChange:
             result.add_change(self(child))
         return result
 
-    def makeChangeContents(self, path, new_contents, old_contents):
+    def makeChangeContents(self, path, new_contents, old_contents, newlines=None):
         resource = self.project.get_file(path)
-        return ChangeContents(resource, new_contents, old_contents)
+        return ChangeContents(resource, new_contents, old_contents, newlines)
 
     def makeMoveResource(self, old_path, new_path, is_folder=False):
         if is_folder:
